@@ -259,7 +259,7 @@ void ExecImpl::op_expect(const Op& op, std::function<void()>* scope_body) {
     std::unique_ptr<Inst> inst(new Inst);
     std::unique_ptr<int> cell(new int(0));
     inst->id = e.id; for (int i = 0; i < 3; ++i) inst->v[i] = e.v[i];
-    inst->lo = static_cast<size_t>(lo); inst->hi = static_cast<size_t>(hi); inst->snap = e.snap; inst->str = std::to_string(1000 + e.id); inst->cell = cell.get();
+    inst->lo = static_cast<size_t>(lo); inst->hi = static_cast<size_t>(hi); inst->snap = e.snap; inst->str = std::to_string(1000 + e.id); inst->pr = {1000 + e.id, e.id}; inst->cell = cell.get();
     for (int i = 0; i < d.nseq; ++i) inst->s[i] = rseqs[chosen[static_cast<size_t>(i)]].get();
     bool threw = false;
     try {
@@ -290,7 +290,7 @@ void ExecImpl::op_expect(const Op& op, std::function<void()>* scope_body) {
     x.id = id; for (int i = 0; i < 3; ++i) x.v[i] = e.v[i];
     x.lo = static_cast<size_t>(lo); x.hi = static_cast<size_t>(hi);
     if (!(d.bf == BF_RT1 || d.bf == BF_RT2)) { x.lo = static_cast<size_t>(e.L < 0 ? 0 : e.L); x.hi = static_cast<size_t>(e.H < 0 ? 0 : e.H); }
-    x.snap = e.snap; x.str = std::to_string(1000 + id); x.cell = slot.cell.get();
+    x.snap = e.snap; x.str = std::to_string(1000 + id); x.pr = {1000 + id, id}; x.cell = slot.cell.get();
     for (int i = 0; i < d.nseq; ++i) x.s[i] = rseqs[chosen[static_cast<size_t>(i)]].get();
     Obs oc, od;
     std::vector<XRep> want_release;
@@ -332,7 +332,7 @@ void ExecImpl::op_expect(const Op& op, std::function<void()>* scope_body) {
   x.id = e.id; for (int i = 0; i < 3; ++i) x.v[i] = e.v[i];
   x.lo = static_cast<size_t>(e.L < 0 ? 0 : e.L); x.hi = static_cast<size_t>(e.H < 0 ? 0 : e.H);
   if (d.bf == BF_RT1 || d.bf == BF_RT2) { x.lo = static_cast<size_t>(lo); x.hi = static_cast<size_t>(hi); }
-  x.snap = e.snap; x.str = std::to_string(1000 + x.id); x.cell = re.cell.get();
+  x.snap = e.snap; x.str = std::to_string(1000 + x.id); x.pr = {1000 + x.id, x.id}; x.cell = re.cell.get();
   for (int i = 0; i < d.nseq; ++i) x.s[i] = rseqs[chosen[static_cast<size_t>(i)]].get();
   bool threw = false;
   try {
